@@ -163,7 +163,7 @@ fn run_st(o: &Opts) {
         }
     }
     // real threads racing (monitor only; the transcript line carries the verdict the model checks trivially)
-    let rounds = if o.thorough() { 20000 } else { 400 };
+    let rounds = if o.thorough() { 20000 } else { 4000 };
     sink.case("race");
     let mut bad = 0u64;
     for round in 0..rounds {
